@@ -316,10 +316,20 @@ type sibling struct {
 	c   rune
 }
 
+// DeriveN is Derive with an explicit step budget (large real-world grammars need more than the default 300).
+func DeriveN(r *rand.Rand, g *Grammar, start string, alphabet []rune, steps int) []rune {
+	deriveBudget = steps
+	defer func() { deriveBudget = 300 }()
+	out, _ := derive(r, g, start, alphabet, false)
+	return out
+}
+
+var deriveBudget = 300
+
 func derive(r *rand.Rand, g *Grammar, start string, alphabet []rune, record bool) ([]rune, []sibling) {
 	var out []rune
 	var cands []sibling
-	budget := 300
+	budget := deriveBudget
 	var walk func(e *Expr, depth int)
 	walk = func(e *Expr, depth int) {
 		budget--
